@@ -146,3 +146,35 @@ class PredDomain(NormDomain):
                 from ..core.norm import _rat
                 return self.lift(_rat(self.R.sqrt(ra * ra + rb * rb)))
         return NormDomain.call_ext(self, dotted, args, kwargs, node)
+
+
+def eval_pred(p, subst, positive):
+    """Truth value of predicate p after substituting atoms (dict atom -> Rat) when the sign of every comparison is decided
+    by `positive` (atoms known > 0): True / False / None."""
+    if p.kind == 'const':
+        return bool(p.args[0])
+    if p.kind == 'cmp':
+        kind, d = p.args
+        d = d.subs(subst)
+        if d.is_zero():
+            sg = 0
+        elif d.den.is_const() and len(d.num.t) == 1:
+            (m, c), = d.num.t.items()
+            if not all(a in positive for a, _ in m):
+                return None
+            sg = 1 if (c / d.den.const_value()) > 0 else -1
+        else:
+            return None
+        return {'<=0': sg <= 0, '<0': sg < 0, '==0': sg == 0}[kind]
+    vals = [eval_pred(a, subst, positive) for a in p.args]
+    if p.kind == 'not':
+        return None if vals[0] is None else (not vals[0])
+    if p.kind == 'and':
+        if any(v is False for v in vals):
+            return False
+        return None if any(v is None for v in vals) else True
+    if p.kind == 'or':
+        if any(v is True for v in vals):
+            return True
+        return None if any(v is None for v in vals) else False
+    return None
